@@ -250,8 +250,10 @@ async fn probe_torn_keys<const N: usize>(d: &mut Driver<N>, out: &mut CaseOut) {
                 err
             }
         };
+        // indexed or not, the storage may now count the torn record as a live version of the key in that blob
+        // (delete counts, listings below a marker): the key leaves the model comparison either way
+        d.tainted.insert(k);
         if let Some(e) = e1.or(e2) {
-            d.tainted.insert(k);
             if d.model.ranked(k).is_empty() {
                 out.failed_put_key_err += 1;
             } else {
